@@ -103,6 +103,8 @@ struct ConfigWorld : World {
 			int rc; { Sut s; rc = vmt[v]->convert(TypeConfigPtr, &vcfg[v]); }
 			if (rc < 0 || !vcfg[v]) fail("setup", "view does not convert to a configuration");
 		}
+		config *gconf = 0; { Sut s; metatype *gm = mpt_config_global(0); if (gm) gm->convert(TypeConfigPtr, &gconf); }
+		if (!gconf) fail("setup", "the process-wide configuration does not convert to a configuration");
 		log.ev("config sep='%c' empty-elements=%d", sep, (int) allow_empty);
 		auto join = [&](const PathV &pv) { std::string s; for (size_t i = 0; i < pv.size(); ++i) { if (i) s += sep; s += pv[i]; } return s; };
 		auto short_path = [&](const PathV &pv) { std::string s; for (size_t i = 0; i < pv.size(); ++i) { if (i) s += sep; s += pv[i].size() > 8 ? pv[i].substr(0, 3) + ".." + std::to_string(pv[i].size()) : pv[i]; } return s; };
@@ -152,6 +154,17 @@ struct ConfigWorld : World {
 				int end = 0; std::string pt = cxx ? ps : path_text(ps, op.c, end);
 				Block pb(pt.size() + 1, 0); memcpy(pb.p, pt.c_str(), pt.size() + 1);
 				Block vb(vl + 1, 0); memcpy(vb.p, val.c_str(), vl + 1);
+				bool fitsb = true; for (auto &e : rel) if (e.size() > 255) fitsb = false;
+				if (!cxx && fitsb && (op.c & 192) == 64) {
+					// the same assignment with the path handed over in its length-prefixed form
+					mpt::path bp; bp.sep = sep; bp.assign = 0; bp.flags = mpt::path::SepBinary; bool okp = true;
+					for (auto &e : rel) { for (char c : e) { int r; { Sut s; r = mpt_path_addchar(&bp, (unsigned char) c); if (r >= 0) r = mpt_path_valid(&bp); } if (r < 0) okp = false; } int r; { Sut s; r = mpt_path_add(&bp, (int) e.size()); } if (r < 0) okp = false; }
+					if (!okp) fail("refused-valid", "length-prefixed path: element-wise construction of '%s' refused", short_path(rel).c_str());
+					config *cf = conf ? conf : gconf; const char *vp = (const char *) vb.p; value v; v.set('s', &vp);
+					{ Sut s(failn); mpt::path use(bp); rc = cf->assign(&use, &v); fired = g.fired; }
+					{ Sut s; mpt_path_fini(&bp); }
+					st.hit("probe:binary_path_assign");
+				} else
 				{ Sut s(failn); if (cxx) rc = conf->set((const char *) pb.p, (const char *) vb.p, sep) ? 0 : -1; else rc = mpt_config_set(conf, (const char *) pb.p, (const char *) vb.p, sep, end); fired = g.fired; }
 				if (cxx) st.hit("probe:cxx_config_set");
 				if (end) st.hit(pt.size() > ps.size() ? "probe:path_with_end_delimiter" : "probe:end_delimiter_not_in_path");
@@ -303,6 +316,31 @@ struct ConfigWorld : World {
 						}
 						{ Sut s; delete cp; }
 					}
+				}
+				// the length-prefixed path format (elements of up to 255 bytes): built element by element, it walks, reduces and shrinks like the text form
+				bool fits = !rel.empty(); for (auto &e : rel) if (e.size() > 255) fits = false;
+				if (!degenerate && fits && (op.c & 64)) {
+					mpt::path bp; bp.sep = sep; bp.assign = 0; bp.flags = mpt::path::SepBinary; bool ok = true;
+					for (auto &e : rel) {
+						for (char c : e) { int r; { Sut s; r = mpt_path_addchar(&bp, (unsigned char) c); if (r >= 0) r = mpt_path_valid(&bp); } if (r < 0) ok = false; }
+						int r; { Sut s; r = mpt_path_add(&bp, (int) e.size()); } if (r < 0) ok = false;
+					}
+					if (!ok) fail("refused-valid", "length-prefixed path: element-wise construction of '%s' refused", short_path(rel).c_str());
+					auto walk = [&](const mpt::path &from) { PathV out; mpt::path it(from); int gb = 0; while (true) { const char *base = it.base + it.off; int l; { Sut s; l = mpt_path_next(&it); } if (l < 0) break; out.emplace_back(base, (size_t) l); if (++gb > 16) break; } return out; };
+					PathV sb = walk(bp);
+					if (sb != rel) fail("walk-differs", "a length-prefixed path built from '%s' iterates as %zu elements", short_path(rel).c_str(), sb.size());
+					{ mpt::path lp(bp); int ll; { Sut s; ll = mpt_path_last(&lp); } const std::string &last = rel.back();
+					  if (ll != (int) last.size()) fail("walk-differs", "mpt_path_last on the length-prefixed form of '%s' reports a last element of %d bytes, it has %zu", short_path(rel).c_str(), ll, last.size());
+					  PathV sl = walk(lp); if (sl.size() != 1 || sl[0] != last) fail("walk-differs", "after mpt_path_last the length-prefixed form of '%s' iterates as %zu element(s), expected its last one alone", short_path(rel).c_str(), sl.size()); }
+					if (rel.size() >= 2) { mpt::path l2(bp); int l2l; { Sut s; mpt_path_next(&l2); l2l = mpt_path_last(&l2); } const std::string &last = rel.back();
+					  if (l2l != (int) last.size() || std::string(l2.base + l2.off, (size_t) (l2l < 0 ? 0 : l2l)) != last) fail("walk-differs", "mpt_path_last after one mpt_path_next on the length-prefixed form of '%s' gives %d bytes, the last element has %zu", short_path(rel).c_str(), l2l, last.size()); }
+					if (rel.size() >= 3) {
+						int r1, r2; { Sut s; r1 = mpt_path_next(&bp); r2 = mpt_path_del(&bp); }
+						PathV mid(rel.begin() + 1, rel.end() - 1), s5 = walk(bp);
+						if (r1 < 0 || r2 < 0 || s5 != mid) fail("walk-differs", "length-prefixed form of '%s': after next (%d) and del (%d) %zu elements remain, the %zu middle ones were expected", short_path(rel).c_str(), r1, r2, s5.size(), mid.size());
+					}
+					{ Sut s; mpt_path_fini(&bp); }
+					st.hit("probe:binary_path_walk");
 				}
 				outcome = (int) seen.size();
 				break;
